@@ -1847,6 +1847,769 @@ fn case_overlap_h2front(ctx: &mut Ctx, tls: &mut TlsCtx, upload: usize, download
     case
 }
 
+// ---------------------------------------------------------------- strict HPACK peer --
+
+/// A decoder that enforces RFC 7541 §4.2 / §6.3 on top of `loona_hpack::Decoder`: after a
+/// SETTINGS_HEADER_TABLE_SIZE that lowers the size, the next header block must begin with a
+/// dynamic-table-size update; an update never exceeds the last acknowledged SETTINGS value;
+/// the table stays in step over the whole connection (later indexed fields decode correctly).
+struct StrictHpack {
+    dec: loona_hpack::Decoder<'static>,
+    /// SETTINGS values sent and not yet acknowledged
+    pending: std::collections::VecDeque<u32>,
+    /// last acknowledged SETTINGS_HEADER_TABLE_SIZE (4096 before any)
+    setting: u32,
+    /// smallest acknowledged value since the last header block, if any SETTINGS was acknowledged
+    owed: Option<u32>,
+    /// table size the encoder last announced (4096 initially)
+    cur: u32,
+    blocks: usize,
+    /// a growth that was acknowledged but never announced (legal only if the encoder keeps the old size)
+    unannounced_growth: bool,
+}
+
+impl StrictHpack {
+    fn new() -> Self {
+        StrictHpack { dec: loona_hpack::Decoder::new(), pending: Default::default(), setting: 4096, owed: None, cur: 4096, blocks: 0, unannounced_growth: false }
+    }
+    fn sent(&mut self, v: u32) {
+        self.pending.push_back(v);
+    }
+    fn acked(&mut self) {
+        if let Some(v) = self.pending.pop_front() {
+            self.setting = v;
+            self.owed = Some(self.owed.map(|o| o.min(v)).unwrap_or(v));
+        }
+    }
+    /// decode one complete header block
+    fn block(&mut self, b: &[u8]) -> Result<Vec<(Vec<u8>, Vec<u8>)>, (String, String)> {
+        self.blocks += 1;
+        // leading dynamic-table-size updates (001xxxxx, 5-bit prefix integer)
+        let mut i = 0;
+        let mut updates: Vec<u64> = vec![];
+        while i < b.len() && b[i] & 0xe0 == 0x20 {
+            let mut v = (b[i] & 0x1f) as u64;
+            i += 1;
+            if v == 0x1f {
+                let mut shift = 0;
+                loop {
+                    if i >= b.len() || shift > 35 {
+                        return Err(("hpack-tables-out-of-sync".into(), "truncated size-update integer".into()));
+                    }
+                    let o = b[i];
+                    i += 1;
+                    v += ((o & 0x7f) as u64) << shift;
+                    shift += 7;
+                    if o & 0x80 == 0 {
+                        break;
+                    }
+                }
+            }
+            updates.push(v);
+        }
+        let head: Vec<String> = b.iter().take(6).map(|x| format!("{x:02x}")).collect();
+        for u in &updates {
+            if *u > self.setting as u64 {
+                return Err(("hpack-size-update-exceeds-setting".into(), format!("header block #{} announces table size {u}, the last acknowledged SETTINGS_HEADER_TABLE_SIZE is {} (block starts {})", self.blocks, self.setting, head.join(" "))));
+            }
+        }
+        if let Some(owed) = self.owed.take() {
+            match updates.first() {
+                None if owed < self.cur => {
+                    return Err(("hpack-size-update-missing".into(), format!("SETTINGS_HEADER_TABLE_SIZE {owed} was acknowledged (table size in use {}), but header block #{} does not start with a dynamic-table-size update (it starts {})", self.cur, self.blocks, head.join(" "))));
+                }
+                None => {
+                    if owed > self.cur {
+                        self.unannounced_growth = true;
+                    }
+                }
+                Some(first) => {
+                    // the first update must get down to the smallest value in between
+                    if *first > owed as u64 && owed < self.cur {
+                        return Err(("hpack-size-update-missing".into(), format!("first size update {first} does not go down to the acknowledged {owed}")));
+                    }
+                }
+            }
+        }
+        if let Some(last) = updates.last() {
+            self.cur = *last as u32;
+        }
+        self.dec.set_max_allowed_table_size(self.setting.max(self.cur) as usize);
+        match self.dec.decode(b) {
+            Ok(list) => Ok(list),
+            Err(e) => Err(("hpack-tables-out-of-sync".into(), format!("header block #{} does not decode: {e:?} (table size announced {}, SETTINGS {}, unannounced growth: {}; block starts {})", self.blocks, self.cur, self.setting, self.unannounced_growth, head.join(" ")))),
+        }
+    }
+}
+
+/// `n` header fields that fill about 1.9 KB of dynamic table (unique per `set`)
+fn bulky_headers(set: usize) -> Vec<(String, String)> {
+    (0..10).map(|k| (format!("x-set{set}-h{k}"), format!("{}", "v".repeat(120) + &format!("-{set}-{k}")))).collect()
+}
+
+fn settings_frame(entries: &[(u16, u32)]) -> Vec<u8> {
+    let mut p = vec![];
+    for (id, v) in entries {
+        p.extend_from_slice(&id.to_be_bytes());
+        p.extend_from_slice(&v.to_be_bytes());
+    }
+    frame(4, 0, 0, &p)
+}
+
+#[derive(Clone, Debug)]
+enum HpStep {
+    /// SETTINGS_HEADER_TABLE_SIZE while the connection is idle; waits for the ACK
+    Setting(u32),
+    /// one request whose message carries header set `set`; `during`: send that SETTINGS while the
+    /// body transfer of this exchange is in progress
+    Request { set: usize, body: usize, during: Option<u32> },
+}
+
+// ---- front side: TLS HTTP/2 client decodes sozu's response header blocks
+
+fn case_front_hpack(ctx: &mut Ctx, tls: &mut TlsCtx, name: &str, start: Option<u32>, steps: &[HpStep], fails: &mut Vec<Fail>, dist: &mut BTreeMap<String, u64>) -> String {
+    use std::io::{Read, Write};
+    tls.n += 1;
+    let path = format!("/h{}", tls.n);
+    let cid = format!("hp{}", tls.n);
+    let be = MockBackend::listen().unwrap();
+    ctx.w.add_cluster(cluster(&cid)).unwrap();
+    ctx.w.add_https_frontend(tls.front, "localhost", &path, &cid).unwrap();
+    ctx.w.add_backend(&cid, &format!("{cid}-0"), be.addr).unwrap();
+    let case = format!("hpack-front[{name}] path={path} start={start:?} steps={steps:?}");
+    *dist.entry(format!("hpack-front:{name}")).or_insert(0) += 1;
+    let reqs: Vec<(usize, usize)> = steps.iter().filter_map(|s| if let HpStep::Request { set, body, .. } = s { Some((*set, *body)) } else { None }).collect();
+    let stop = std::sync::Arc::new(std::sync::atomic::AtomicBool::new(false));
+    let stop_b = stop.clone();
+    let reqs_b = reqs.clone();
+    let bt = std::thread::spawn(move || {
+        let mut conn: Option<RawConn> = None;
+        for (set, body) in reqs_b {
+            if conn.is_none() {
+                conn = be.accept(T).ok();
+            }
+            let Some(b) = conn.as_mut() else { return };
+            if read_http_message(b, Duration::from_secs(6)).is_err() {
+                return;
+            }
+            let mut out = b"HTTP/1.1 200 OK\r\n".to_vec();
+            for (k, v) in bulky_headers(set) {
+                out.extend_from_slice(format!("{k}: {v}\r\n").as_bytes());
+            }
+            out.extend_from_slice(format!("Content-Length: {body}\r\n\r\n").as_bytes());
+            out.extend((0..body).map(resp_byte));
+            if b.write_all(&out, Duration::from_secs(6)).is_err() {
+                return;
+            }
+        }
+        while !stop_b.load(std::sync::atomic::Ordering::Relaxed) {
+            std::thread::sleep(Duration::from_millis(5));
+        }
+    });
+    let finish = |fails: &mut Vec<Fail>, class: &str, detail: String| fails.push(Fail { class: class.into(), detail, case: case.clone() });
+    let mut st = match tls_connect(tls.front, "localhost", &["h2"], Duration::from_millis(40)) {
+        Ok(s) => s,
+        Err(e) => {
+            stop.store(true, std::sync::atomic::Ordering::Relaxed);
+            finish(fails, "h2front-transfer-failed", format!("tls connect: {e:?}"));
+            return case;
+        }
+    };
+    let mut hp = StrictHpack::new();
+    let mut hello = b"PRI * HTTP/2.0\r\n\r\nSM\r\n\r\n".to_vec();
+    // a small stream window keeps a download "in progress" until the client opens it
+    let mut entries: Vec<(u16, u32)> = vec![(4, 30000)];
+    if let Some(v) = start {
+        entries.push((1, v));
+    }
+    // every SETTINGS frame is acknowledged once: track them all, table size or not
+    hello.extend_from_slice(&settings_frame(&entries));
+    hp.sent(start.unwrap_or(4096));
+    hello.extend_from_slice(&frame(8, 0, 0, &(1u32 << 24).to_be_bytes()));
+    if st.write_all(&hello).and_then(|_| st.flush()).is_err() {
+        stop.store(true, std::sync::atomic::Ordering::Relaxed);
+        finish(fails, "h2front-transfer-failed", "write hello".into());
+        return case;
+    }
+    let mut enc = loona_hpack::Encoder::new();
+    let mut rx: Vec<u8> = vec![];
+    let mut pos = 0usize;
+    let mut sid = 1u32;
+    let mut acks_seen = 0usize;
+    let mut verdict: Option<(String, String)> = None;
+    // pump: read frames until `done(..)`; returns false on timeout / error
+    let mut block: Vec<u8> = vec![];
+    'steps: for step in steps {
+        let (want_acks, request) = match step {
+            HpStep::Setting(v) => {
+                let _ = st.write_all(&settings_frame(&[(1, *v)])).and_then(|_| st.flush());
+                hp.sent(*v);
+                (acks_seen + 1, None)
+            }
+            HpStep::Request { set, body, during } => {
+                let hs: Vec<(&[u8], &[u8])> = vec![(b":method", b"GET"), (b":scheme", b"https"), (b":path", path.as_bytes()), (b":authority", b"localhost")];
+                let blk = enc.encode(hs);
+                let _ = st.write_all(&frame(1, 4 | 1, sid, &blk)).and_then(|_| st.flush());
+                (0, Some((*set, *body, *during)))
+            }
+        };
+        let deadline = Instant::now() + Duration::from_secs(5);
+        let mut got = 0usize;
+        let mut headers_ok = false;
+        let mut during_sent = false;
+        let mut opened = false;
+        let mut ended = false;
+        loop {
+            if Instant::now() > deadline {
+                verdict = Some(("h2front-response-stalled".into(), format!("step {step:?}: {got} body bytes, headers {headers_ok}, acks {acks_seen}")));
+                break 'steps;
+            }
+            match request {
+                None => {
+                    if acks_seen >= want_acks {
+                        // let the pass that carried the ACK finish
+                        std::thread::sleep(Duration::from_millis(20));
+                        break;
+                    }
+                }
+                Some(_) => {
+                    if ended {
+                        break;
+                    }
+                }
+            }
+            let mut buf = [0u8; 16384];
+            match st.read(&mut buf) {
+                Ok(0) => {
+                    verdict = Some(("h2front-transfer-failed".into(), format!("connection closed by sozu at step {step:?}")));
+                    break 'steps;
+                }
+                Ok(n) => rx.extend_from_slice(&buf[..n]),
+                Err(e) if e.kind() == std::io::ErrorKind::WouldBlock || e.kind() == std::io::ErrorKind::TimedOut => {}
+                Err(e) => {
+                    verdict = Some(("h2front-transfer-failed".into(), format!("read: {e}")));
+                    break 'steps;
+                }
+            }
+            let mut out = vec![];
+            while rx.len() - pos >= 9 {
+                let h = &rx[pos..pos + 9];
+                let len = ((h[0] as usize) << 16) | ((h[1] as usize) << 8) | h[2] as usize;
+                let (ty, fl) = (h[3], h[4]);
+                if rx.len() - pos - 9 < len {
+                    break;
+                }
+                let payload = rx[pos + 9..pos + 9 + len].to_vec();
+                pos += 9 + len;
+                match ty {
+                    4 if fl & 1 == 0 => out.extend_from_slice(&frame(4, 1, 0, &[])),
+                    4 => {
+                        acks_seen += 1;
+                        hp.acked();
+                    }
+                    6 if fl & 1 == 0 => out.extend_from_slice(&frame(6, 1, 0, &payload)),
+                    1 | 9 => {
+                        block.extend_from_slice(&payload);
+                        if fl & 4 != 0 {
+                            let b = std::mem::take(&mut block);
+                            match hp.block(&b) {
+                                Err(v) => {
+                                    verdict = Some(v);
+                                    break 'steps;
+                                }
+                                Ok(list) => {
+                                    if let Some((set, _, _)) = request {
+                                        let status = list.iter().any(|(k, v)| k == b":status" && v == b"200");
+                                        let missing: Vec<String> = bulky_headers(set).into_iter().filter(|(k, v)| !list.iter().any(|(a, b)| a == k.as_bytes() && b == v.as_bytes())).map(|(k, _)| k).collect();
+                                        if !status || !missing.is_empty() {
+                                            verdict = Some(("hpack-tables-out-of-sync".into(), format!("response header block #{} decodes to the wrong fields: status 200 present {status}, backend fields missing {missing:?}; decoded names {:?}", hp.blocks, list.iter().map(|(k, _)| String::from_utf8_lossy(k).to_string()).collect::<Vec<_>>())));
+                                            break 'steps;
+                                        }
+                                        headers_ok = true;
+                                    }
+                                }
+                            }
+                        }
+                        if ty == 1 && fl & 1 != 0 {
+                            ended = true;
+                        }
+                    }
+                    0 => {
+                        got += len;
+                        if fl & 1 != 0 {
+                            ended = true;
+                        }
+                    }
+                    3 | 7 => {
+                        verdict = Some(("h2front-transfer-failed".into(), format!("frame type {ty} payload {payload:?} at step {step:?}")));
+                        break 'steps;
+                    }
+                    _ => {}
+                }
+            }
+            if let Some((_, body, during)) = request {
+                // the download is in progress (stalled on the 30000-byte window): change the table size now
+                if let Some(v) = during {
+                    if !during_sent && got >= 30000.min(body) {
+                        out.extend_from_slice(&settings_frame(&[(1, v)]));
+                        hp.sent(v);
+                        during_sent = true;
+                    }
+                }
+                let settings_done = during.is_none() || (during_sent && hp.pending.is_empty());
+                if !opened && settings_done && (got >= 30000.min(body) || headers_ok) {
+                    out.extend_from_slice(&frame(8, 0, sid, &(1u32 << 24).to_be_bytes()));
+                    opened = true;
+                }
+            }
+            if !out.is_empty() {
+                let _ = st.write_all(&out).and_then(|_| st.flush());
+            }
+        }
+        if request.is_some() {
+            sid += 2;
+        }
+    }
+    stop.store(true, std::sync::atomic::Ordering::Relaxed);
+    drop(st);
+    let _ = bt.join();
+    if let Some((class, detail)) = verdict {
+        finish(fails, &class, detail);
+    }
+    case
+}
+
+// ---- back side: a scripted h2c backend decodes sozu's request header blocks
+
+/// TLS HTTP/2 client that performs the `Request` steps (one stream each) when the backend gives
+/// the go-ahead; returns an error text if an exchange did not complete with 200
+fn drive_h2_requests<R>(front: std::net::SocketAddr, path: &str, steps: &[HpStep], turn: &std::sync::atomic::AtomicUsize, bt: &std::thread::JoinHandle<R>) -> Option<String> {
+    use std::io::{Read, Write};
+    let mut st = match tls_connect(front, "localhost", &["h2"], Duration::from_millis(30)) {
+        Ok(s) => s,
+        Err(e) => return Some(format!("tls connect: {e:?}")),
+    };
+    let mut hello = b"PRI * HTTP/2.0\r\n\r\nSM\r\n\r\n".to_vec();
+    hello.extend_from_slice(&settings_frame(&[(4, 1 << 20)]));
+    hello.extend_from_slice(&frame(8, 0, 0, &(1u32 << 24).to_be_bytes()));
+    if st.write_all(&hello).and_then(|_| st.flush()).is_err() {
+        return Some("write hello".into());
+    }
+    let mut enc = loona_hpack::Encoder::new();
+    let mut dec = loona_hpack::Decoder::new();
+    let (mut peer_init, mut send_conn): (i64, i64) = (65535, 65535);
+    let mut rx: Vec<u8> = vec![];
+    let mut pos = 0usize;
+    let mut sid = 1u32;
+    for (i, step) in steps.iter().enumerate() {
+        let HpStep::Request { set, body, .. } = step else { continue };
+        let until = Instant::now() + Duration::from_secs(8);
+        while turn.load(std::sync::atomic::Ordering::SeqCst) < i + 1 && Instant::now() < until && !bt.is_finished() {
+            std::thread::sleep(Duration::from_millis(2));
+        }
+        if bt.is_finished() {
+            return None;
+        }
+        let p = format!("{path}/r{i}");
+        let cl = body.to_string();
+        let bulky = bulky_headers(*set);
+        let mut hs: Vec<(&[u8], &[u8])> = vec![(b":method", b"POST"), (b":scheme", b"https"), (b":path", p.as_bytes()), (b":authority", b"localhost"), (b"content-length", cl.as_bytes())];
+        for (k, v) in &bulky {
+            hs.push((k.as_bytes(), v.as_bytes()));
+        }
+        let blk = enc.encode(hs);
+        let mut out = frame(1, 4, sid, &blk);
+        let payload: Vec<u8> = (0..*body).map(upload_byte).collect();
+        let mut send_stream = peer_init;
+        let mut off = 0usize;
+        let mut ended = false;
+        let mut status = false;
+        let deadline = Instant::now() + Duration::from_secs(6);
+        let mut sent_end = false;
+        while !ended {
+            if Instant::now() > deadline {
+                return Some(format!("request {i}: Timeout ({off} of {body} body bytes sent, response headers {status})"));
+            }
+            while off < payload.len() || !sent_end {
+                let room = send_stream.min(send_conn).min(16384);
+                if room <= 0 && off < payload.len() {
+                    break;
+                }
+                let n = (room.max(0) as usize).min(payload.len() - off);
+                let last = off + n == payload.len();
+                out.extend_from_slice(&frame(0, last as u8, sid, &payload[off..off + n]));
+                off += n;
+                send_stream -= n as i64;
+                send_conn -= n as i64;
+                if last {
+                    sent_end = true;
+                    break;
+                }
+            }
+            if !out.is_empty() {
+                if st.write_all(&out).and_then(|_| st.flush()).is_err() {
+                    // rustls may have buffered part of it: keep flushing
+                    let _ = st.flush();
+                }
+                out.clear();
+            }
+            let mut buf = [0u8; 16384];
+            match st.read(&mut buf) {
+                Ok(0) => return Some(format!("request {i}: connection closed by sozu")),
+                Ok(n) => rx.extend_from_slice(&buf[..n]),
+                Err(e) if e.kind() == std::io::ErrorKind::WouldBlock || e.kind() == std::io::ErrorKind::TimedOut => {}
+                Err(e) => return Some(format!("request {i}: read {e}")),
+            }
+            while rx.len() - pos >= 9 {
+                let h = &rx[pos..pos + 9];
+                let len = ((h[0] as usize) << 16) | ((h[1] as usize) << 8) | h[2] as usize;
+                let (ty, fl) = (h[3], h[4]);
+                let fsid = u32::from_be_bytes([h[5], h[6], h[7], h[8]]) & 0x7fff_ffff;
+                if rx.len() - pos - 9 < len {
+                    break;
+                }
+                let pl = rx[pos + 9..pos + 9 + len].to_vec();
+                pos += 9 + len;
+                match ty {
+                    4 if fl & 1 == 0 => {
+                        for e in pl.chunks(6) {
+                            if e.len() == 6 && u16::from_be_bytes([e[0], e[1]]) == 4 {
+                                let v = u32::from_be_bytes([e[2], e[3], e[4], e[5]]) as i64;
+                                send_stream += v - peer_init;
+                                peer_init = v;
+                            }
+                        }
+                        out.extend_from_slice(&frame(4, 1, 0, &[]));
+                    }
+                    8 => {
+                        let inc = (u32::from_be_bytes([pl[0], pl[1], pl[2], pl[3]]) & 0x7fff_ffff) as i64;
+                        if fsid == 0 {
+                            send_conn += inc;
+                        } else if fsid == sid {
+                            send_stream += inc;
+                        }
+                    }
+                    6 if fl & 1 == 0 => out.extend_from_slice(&frame(6, 1, 0, &pl)),
+                    1 => {
+                        if let Ok(list) = dec.decode(&pl) {
+                            if let Some((_, v)) = list.iter().find(|(k, _)| k == b":status") {
+                                if v != b"200" {
+                                    return Some(format!("request {i}: status {}", String::from_utf8_lossy(v)));
+                                }
+                                status = true;
+                            }
+                        }
+                        if fl & 1 != 0 {
+                            ended = true;
+                        }
+                    }
+                    0 => {
+                        if fl & 1 != 0 {
+                            ended = true;
+                        }
+                    }
+                    3 => return Some(format!("request {i}: RST_STREAM {pl:?}")),
+                    7 => return Some(format!("request {i}: GOAWAY {pl:?}")),
+                    _ => {}
+                }
+            }
+        }
+        if !status {
+            return Some(format!("request {i}: no :status"));
+        }
+        sid += 2;
+    }
+    None
+}
+
+fn case_back_hpack(ctx: &mut Ctx, tls: Option<&mut TlsCtx>, name: &str, start: Option<u32>, steps: &[HpStep], fails: &mut Vec<Fail>, dist: &mut BTreeMap<String, u64>) -> String {
+    let mut last = String::new();
+    let mut tls = tls;
+    for attempt in 0..3 {
+        ctx.n += 1;
+        let host = format!("k{}.test", ctx.n);
+        let be = MockBackend::listen().unwrap();
+        let mut tls_path = String::new();
+        match tls.as_deref_mut() {
+            None => ctx.w.add_http_route(ctx.front, &host, "/", &format!("k{}", ctx.n), be.addr, true).unwrap(),
+            Some(t) => {
+                // several streams of one TLS HTTP/2 session share one h2c backend connection
+                t.n += 1;
+                tls_path = format!("/k{}", t.n);
+                let cid = format!("kb{}", t.n);
+                let mut cl = cluster(&cid);
+                cl.http2 = Some(true);
+                ctx.w.add_cluster(cl).unwrap();
+                ctx.w.add_https_frontend(t.front, "localhost", &tls_path, &cid).unwrap();
+                ctx.w.add_backend(&cid, &format!("{cid}-0"), be.addr).unwrap();
+            }
+        }
+        let driver = if tls.is_some() { "h2tls" } else { "h1" };
+        let case = format!("hpack-back[{name}/{driver}] host={host} start={start:?} steps={steps:?} attempt={attempt}");
+        last = case.clone();
+        *dist.entry(format!("hpack-back:{name}")).or_insert(0) += 1;
+        // step synchronisation: the client performs request i only when the backend allows it
+        let turn = std::sync::Arc::new(std::sync::atomic::AtomicUsize::new(0));
+        let turn_b = turn.clone();
+        let steps_b: Vec<HpStep> = steps.to_vec();
+        let bt = std::thread::spawn(move || -> (Option<(String, String)>, usize, Option<String>) {
+            let turn_b0 = turn_b.clone();
+            if matches!(steps_b.first(), Some(HpStep::Request { .. })) {
+                turn_b0.store(1, std::sync::atomic::Ordering::SeqCst);
+            }
+            let mut c = match be.accept(T) {
+                Ok(c) => c,
+                Err(e) => return (None, 0, Some(format!("accept: {e:?}"))),
+            };
+            let mut hp = StrictHpack::new();
+            let mut enc = loona_hpack::Encoder::new();
+            let mut pos = 0usize;
+            let mut preface = false;
+            let mut block: Vec<u8> = vec![];
+            let mut served = 0usize;
+            let mut acks = 0usize;
+            let deadline = Instant::now() + Duration::from_secs(12);
+            let mut step_i = 0usize;
+            // what the current request step expects
+            let mut cur: Option<(usize, usize, Option<u32>)> = None;
+            // sozu connects only once the first request is there: that one needs no go-ahead
+            if let Some(HpStep::Request { set, body, during }) = steps_b.first() {
+                cur = Some((*set, *body, *during));
+                turn_b.store(1, std::sync::atomic::Ordering::SeqCst);
+            }
+            let mut during_sent = false;
+            let mut want_acks: Option<usize> = None;
+            let mut body_got = 0usize;
+            loop {
+                if Instant::now() > deadline {
+                    return (None, served, Some(format!("backend deadline at step {step_i}")));
+                }
+                // advance the script when nothing is in flight
+                if preface && cur.is_none() && want_acks.is_none() {
+                    if step_i >= steps_b.len() {
+                        let _ = c.read_until_quiet(Duration::from_millis(30), Duration::from_millis(200));
+                        return (None, served, None);
+                    }
+                    match &steps_b[step_i] {
+                        HpStep::Setting(v) => {
+                            let _ = c.write_all(&settings_frame(&[(1, *v)]), T);
+                            hp.sent(*v);
+                            want_acks = Some(acks + 1);
+                        }
+                        HpStep::Request { set, body, during } => {
+                            cur = Some((*set, *body, *during));
+                            during_sent = false;
+                            body_got = 0;
+                            turn_b.store(step_i + 1, std::sync::atomic::Ordering::SeqCst);
+                        }
+                    }
+                }
+                if let Some(w) = want_acks {
+                    if acks >= w {
+                        std::thread::sleep(Duration::from_millis(20));
+                        want_acks = None;
+                        step_i += 1;
+                        continue;
+                    }
+                }
+                match c.read_some_max(1 << 16, Duration::from_millis(50)) {
+                    ReadEnd::Closed | ReadEnd::Reset => return (None, served, Some("connection closed by sozu".into())),
+                    _ => {}
+                }
+                loop {
+                    if !preface {
+                        if c.received.len() - pos < 24 {
+                            break;
+                        }
+                        pos += 24;
+                        preface = true;
+                        let mut entries: Vec<(u16, u32)> = vec![(4, 1 << 20)];
+                        if let Some(v) = start {
+                            entries.push((1, v));
+                        }
+                        let mut first = settings_frame(&entries);
+                        hp.sent(start.unwrap_or(4096));
+                        first.extend_from_slice(&frame(8, 0, 0, &(1u32 << 24).to_be_bytes()));
+                        let _ = c.write_all(&first, T);
+                        continue;
+                    }
+                    if c.received.len() - pos < 9 {
+                        break;
+                    }
+                    let h = &c.received[pos..pos + 9];
+                    let len = ((h[0] as usize) << 16) | ((h[1] as usize) << 8) | h[2] as usize;
+                    let (ty, fl) = (h[3], h[4]);
+                    let sid = u32::from_be_bytes([h[5], h[6], h[7], h[8]]) & 0x7fff_ffff;
+                    if c.received.len() - pos - 9 < len {
+                        break;
+                    }
+                    let payload = c.received[pos + 9..pos + 9 + len].to_vec();
+                    pos += 9 + len;
+                    if std::env::var("E2E_TRACE").is_ok() {
+                        eprintln!("hpack-backend <- type={ty} flags={fl:#x} sid={sid} len={len}");
+                    }
+                    let mut end_of_request = false;
+                    match ty {
+                        4 if fl & 1 == 0 => {
+                            let _ = c.write_all(&frame(4, 1, 0, &[]), T);
+                        }
+                        4 => {
+                            acks += 1;
+                            hp.acked();
+                        }
+                        6 if fl & 1 == 0 => {
+                            let _ = c.write_all(&frame(6, 1, 0, &payload), T);
+                        }
+                        1 | 9 => {
+                            block.extend_from_slice(&payload);
+                            if fl & 4 != 0 {
+                                let b = std::mem::take(&mut block);
+                                match hp.block(&b) {
+                                    Err(v) => return (Some(v), served, None),
+                                    Ok(list) => {
+                                        if let Some((set, _, _)) = cur {
+                                            let missing: Vec<String> = bulky_headers(set).into_iter().filter(|(k, v)| !list.iter().any(|(a, b)| a == k.as_bytes() && b == v.as_bytes())).map(|(k, _)| k).collect();
+                                            let method = list.iter().any(|(k, _)| k == b":method");
+                                            if !missing.is_empty() || !method {
+                                                return (Some(("hpack-tables-out-of-sync".into(), format!("request header block #{} decodes to the wrong fields: :method present {method}, client fields missing {missing:?}; decoded names {:?}", hp.blocks, list.iter().map(|(k, _)| String::from_utf8_lossy(k).to_string()).collect::<Vec<_>>()))), served, None);
+                                            }
+                                        }
+                                    }
+                                }
+                            }
+                            if ty == 1 && fl & 1 != 0 {
+                                end_of_request = true;
+                            }
+                        }
+                        0 => {
+                            body_got += len;
+                            let mut out = frame(8, 0, 0, &(len.max(1) as u32).to_be_bytes());
+                            if fl & 1 == 0 {
+                                out.extend_from_slice(&frame(8, 0, sid, &(len.max(1) as u32).to_be_bytes()));
+                            }
+                            if let Some((_, _, Some(v))) = cur {
+                                if !during_sent {
+                                    // the upload is in progress: change the table size now
+                                    out.extend_from_slice(&settings_frame(&[(1, v)]));
+                                    hp.sent(v);
+                                    during_sent = true;
+                                }
+                            }
+                            let _ = c.write_all(&out, T);
+                            if fl & 1 != 0 {
+                                end_of_request = true;
+                            }
+                        }
+                        3 | 7 => return (None, served, Some(format!("frame type {ty} from sozu: {payload:?}"))),
+                        _ => {}
+                    }
+                    if end_of_request {
+                        let blockr = enc.encode(vec![(&b":status"[..], &b"200"[..]), (&b"content-length"[..], &b"2"[..])]);
+                        let mut out = frame(1, 4, sid, &blockr);
+                        out.extend_from_slice(&frame(0, 1, sid, b"ok"));
+                        let _ = c.write_all(&out, T);
+                        let _ = body_got;
+                        served += 1;
+                        cur = None;
+                        step_i += 1;
+                    }
+                }
+            }
+        });
+        let mut client_err: Option<String> = None;
+        let mut status503 = false;
+        if let Some(t) = tls.as_deref_mut() {
+            client_err = drive_h2_requests(t.front, &tls_path, steps, &turn, &bt);
+        }
+        // the HTTP/1.1 client: one connection, request i when the backend says so
+        let mut c = RawConn::connect(ctx.front).unwrap();
+        let mut first = true;
+        for (i, step) in steps.iter().enumerate() {
+            if tls.is_some() {
+                break;
+            }
+            let HpStep::Request { set, body, .. } = step else { continue };
+            let until = Instant::now() + Duration::from_secs(8);
+            while turn.load(std::sync::atomic::Ordering::SeqCst) < i + 1 && Instant::now() < until && !bt.is_finished() {
+                std::thread::sleep(Duration::from_millis(2));
+            }
+            if bt.is_finished() {
+                break;
+            }
+            let mut head = format!("POST /r{i} HTTP/1.1\r\nHost: {host}\r\nContent-Length: {body}\r\n");
+            for (k, v) in bulky_headers(*set) {
+                head.push_str(&format!("{k}: {v}\r\n"));
+            }
+            head.push_str("\r\n");
+            if let Err(e) = c.write_all(head.as_bytes(), T) {
+                client_err = Some(format!("write head {i}: {e:?}"));
+                break;
+            }
+            if first {
+                // see F69: let the backend handshake finish before the body streams in
+                std::thread::sleep(Duration::from_millis(60));
+                first = false;
+            }
+            let payload: Vec<u8> = (0..*body).map(upload_byte).collect();
+            if let Err(e) = c.write_all(&payload, Duration::from_secs(6)) {
+                client_err = Some(format!("write body {i}: {e:?}"));
+                break;
+            }
+            match read_http_message(&mut c, Duration::from_secs(6)) {
+                Ok(m) if m.status() == Some(200) => {}
+                Ok(m) => {
+                    status503 = m.status() == Some(503);
+                    client_err = Some(format!("response {i}: {}", m.start_line));
+                    break;
+                }
+                Err(e) => {
+                    client_err = Some(format!("read response {i}: {e:?}"));
+                    break;
+                }
+            }
+        }
+        let (verdict, served, berr) = bt.join().unwrap_or((None, 0, Some("backend thread".into())));
+        c.close();
+        if let Some((class, detail)) = verdict {
+            fails.push(Fail { class, detail, case: case.clone() });
+            return case;
+        }
+        if client_err.is_none() && berr.is_none() {
+            return case;
+        }
+        // the known flaky modes of the H1 -> h2c path: record under their classes, retry
+        let class = if status503 {
+            "h1-h2c-fresh-backend-connection-503"
+        } else if served == 0 {
+            "h1-h2c-request-aborted-no-answer"
+        } else if client_err.as_deref().map(|e| e.contains("Timeout")).unwrap_or(false) {
+            "h1-h2c-response-stalled"
+        } else {
+            "h1-h2c-hpack-exchange-failed"
+        };
+        if !fails.iter().any(|f| f.class == class) {
+            fails.push(Fail { class: class.into(), detail: format!("client {client_err:?}, backend {berr:?}, {served} requests served"), case: case.clone() });
+        }
+        if class == "h1-h2c-hpack-exchange-failed" {
+            return case;
+        }
+        *dist.entry("hpack-back:retry".into()).or_insert(0) += 1;
+    }
+    last
+}
+
+fn hpack_scenarios() -> Vec<(&'static str, Option<u32>, Vec<HpStep>)> {
+    let r = |set: usize| HpStep::Request { set, body: 2, during: None };
+    vec![
+        ("start-0", Some(0), vec![r(0), r(1)]),
+        ("idle-100-then-4096", None, vec![r(0), HpStep::Setting(100), r(1), HpStep::Setting(4096), r(0), r(1)]),
+        ("start-8192-drift", Some(8192), vec![r(0), r(1), r(2), r(0), r(1)]),
+        ("during-transfer-0", None, vec![HpStep::Request { set: 0, body: 100_000, during: Some(0) }, r(1), r(0)]),
+        ("start-65536-then-8192", Some(65536), vec![r(0), r(1), r(2), HpStep::Setting(8192), r(3), r(0), r(1), r(2), r(3), r(0)]),
+        ("default-4096", Some(4096), vec![r(0), r(1), r(0)]),
+    ]
+}
+
 fn main() {
     silence_worker_panics();
     let args = parse_args();
@@ -1909,6 +2672,33 @@ fn main() {
         match new_tls_listener(&mut ctx) {
             Err(e) => fails.push(Fail { class: "rig-setup".into(), detail: e, case: "h2front".into() }),
             Ok(mut t) => {
+                if args.prop != "C03" {
+                    for (name, start, steps) in hpack_scenarios() {
+                        let case = case_front_hpack(&mut ctx, &mut t, name, start, &steps, &mut fails, &mut dist);
+                        evaluations += 1;
+                        if samples.len() < 2 {
+                            samples.push(json!({"case": case}));
+                        }
+                    }
+                    if family.is_empty() || family == "hpack" {
+                        for (name, start, steps) in hpack_scenarios() {
+                            let _ = case_back_hpack(&mut ctx, Some(&mut t), name, start, &steps, &mut fails, &mut dist);
+                            evaluations += 1;
+                        }
+                        // HTTP/1.1 front: one request per backend connection (a second one on a kept-alive
+                        // session gets 502, see the report), so only the connection-start settings
+                        for v in [0u32, 100, 65536] {
+                            let _ = case_back_hpack(&mut ctx, None, "start-only", Some(v), &[HpStep::Request { set: 0, body: 2, during: None }], &mut fails, &mut dist);
+                            evaluations += 1;
+                        }
+                    }
+                    dist.insert("hpack_wall_ms".into(), t0.elapsed().as_millis() as u64);
+                }
+                if family == "hpack" {
+                    ctx.w.stop();
+                    finish(&args, evaluations, &dist, &samples, &fails, &known_witnesses, t0);
+                    return;
+                }
                 for spec in h2front_specs(&mut frng, &args.prop) {
                     let case = case_h2front(&mut ctx, &mut t, &spec, &args.prop, &mut fails, &mut dist);
                     evaluations += 1;
@@ -2089,11 +2879,11 @@ fn finish(args: &verif_harness::Args, evaluations: u64, dist: &BTreeMap<String, 
         let setup = class == "worker-died" || class == "rig-setup";
         match args.prop.as_str() {
             // peer limits and liveness
-            "C14" => setup || class.starts_with("h2c-") || class.starts_with("h2-front-") || class.starts_with("h2tls-h1-response-stalled") || class.starts_with("h1-h2c-") || class == "h2front-response-stalled" || class == "h2-frame-sync-lost-mid-data" || class == "body-corrupted-under-backpressure",
+            "C14" => setup || class.starts_with("h2c-") || class.starts_with("h2-front-") || class.starts_with("h2tls-h1-response-stalled") || class.starts_with("h1-h2c-") || class == "h2front-response-stalled" || class == "h2-frame-sync-lost-mid-data" || class == "body-corrupted-under-backpressure" || class.starts_with("hpack-"),
             // request boundaries at the backend
             "C03" => setup || class.starts_with("h2-h1-") || class.starts_with("c03-"),
             // C01: byte-exactness and clean ends; the window-ledger classes are C14's, the trailer classes C03's
-            _ => !class.starts_with("h2c-") && !class.starts_with("h2-front-") && !class.starts_with("c03-"),
+            _ => !class.starts_with("h2c-") && !class.starts_with("h2-front-") && !class.starts_with("c03-") && !class.starts_with("hpack-size-update"),
         }
     };
     for f in fails.iter().filter(|f| relevant(&f.class)) {
